@@ -75,6 +75,10 @@ func cmdVCs(args []string) int {
 			continue
 		}
 		x := NewExec(P, f, c)
+		if up := os.Getenv("GOVC_UNMERGED"); up != "" {
+			x.noMergeAll = true
+			x.onlyProp = up
+		}
 		if err := x.Run(); err != nil {
 			fmt.Printf("%s: %v\n", n, err)
 			bad++
@@ -195,6 +199,7 @@ type Check struct {
 	dataObl      []map[string]any
 	dataFactDone map[string]bool
 	crossLight   bool
+	unmerged     bool
 	replayExtra  func(r *Result) (map[string]any, bool)
 	flowObl      []map[string]any
 	assume       map[string]bool
@@ -235,6 +240,10 @@ func (ck *Check) verifyFunctions(filter func(c *Contract) bool) {
 			continue
 		}
 		x := NewExec(P, f, c)
+		if ck.unmerged {
+			x.noMergeAll = true
+			x.onlyProp = ck.Prop
+		}
 		if err := x.Run(); err != nil {
 			ck.outOfSub = append(ck.outOfSub, fmt.Sprintf("%s: %v", n, err))
 			continue
